@@ -174,8 +174,13 @@ Section ArcView.
     destruct (Arc_facts.Inv_wf _ HI) as [_ Hwf]. destruct (Hwf _ _ Ea) as [_ H2]. exact H2.
   Qed.
 
-  Theorem partition_of_arc x v :
-    arc_solution I x v -> exists R, partition st R /\ total_cost st R = v.
+  (* with the witness: the selected variables split into depot-to-depot chains (C05_sound) whose node lists
+     are the routes of the partition *)
+  Theorem partition_of_arc_routes x v :
+    arc_solution I x v ->
+    exists routes : list (list Arc.var),
+      Permutation (Arc.selected I x) (concat routes) /\ Forall Arc_routes.sroute routes /\
+      partition st (map moves_route routes) /\ total_cost st (map moves_route routes) = v.
   Proof.
     intros (Hl & Hb & HA & Hv).
     destruct (C05.C05_sound I x ltac:(rewrite Hg; exact HI) Hgrid Hpos Hl Hb HA)
@@ -238,7 +243,9 @@ Section ArcView.
         split; [exact Ha|]. split; [exact Ht|apply Hcap].
       - cbn [route_cost]. rewrite <- arc_route_cost, Hcost, sumz_sumZ. f_equal. apply map_ext.
         intros m. unfold Arc_facts.move_cost. rewrite Hg. reflexivity. }
-    exists (map (fun l => O :: l ++ [O]) css).
+    exists routes. split; [exact Hperm|]. split; [apply Forall_forall; exact Hsr|].
+    replace (map moves_route routes) with (map (fun l => O :: l ++ [O]) css)
+      by (unfold css; rewrite map_map; reflexivity).
     assert (HvalR : Forall (valid_route st) (map (fun l => O :: l ++ [O]) css)).
     { apply Forall_forall. intros r' Hr'. apply in_map_iff in Hr'. destruct Hr' as (l & <- & Hlc).
       apply in_map_iff in Hlc. destruct Hlc as (r & <- & Hr). apply Hvalid; exact Hr. }
@@ -258,6 +265,13 @@ Section ArcView.
       rewrite (map_ext_in _ (fun r => sumZ (map (Arc_facts.move_cost I) r))) by (intros r Hr; apply Hvalid; exact Hr).
       rewrite <- sumZ_concat. rewrite <- (sumZ_map_perm _ _ _ Hperm).
       rewrite <- Hv, (C05.C05_objective I x Hl Hb). symmetry. apply sumz_sumZ.
+  Qed.
+
+  Theorem partition_of_arc x v :
+    arc_solution I x v -> exists R, partition st R /\ total_cost st R = v.
+  Proof.
+    intros Hx. destruct (partition_of_arc_routes x v Hx) as (routes & _ & _ & HR & Hc).
+    exists (map moves_route routes). split; assumption.
   Qed.
 End ArcView.
 
